@@ -272,6 +272,19 @@ func c09Sections() []c09Section {
 		}
 		out = append(out, c09Section{yang.Render(root, nil), exp, fmt.Sprintf("revision dates %v", d)})
 	}
+	// keyword shapes: a keyword is a YANG statement name or prefix ":" identifier (an extension statement).
+	// The four names the parser uses internally for the kinds of deviate are not keywords.
+	head := "module m {\n  namespace urn:m;\n  prefix m;\n  container c { leaf x { type string; } }\n"
+	for _, d := range []string{"add", "delete", "replace", "not-supported"} {
+		out = append(out, c09Section{head + "  deviation /m:c/m:x { deviate-" + d + " " + d + "; }\n}\n", "reject", "keyword internal-name deviate-" + d})
+		out = append(out, c09Section{head + "  deviation /m:c/m:x { deviate " + d + "; }\n}\n", "accept", "keyword control deviate-" + d})
+	}
+	for _, kw := range []string{"a:b:c", ":c", "c:", "1:2", "a:-b", "a::b", "a:b:", ":", "::", "a:.b", "-a:b", ".a:b"} {
+		out = append(out, c09Section{head + "  leaf l { type string; " + kw + " \"x\"; }\n}\n", "reject", "keyword malformed-prefixed " + kw})
+	}
+	for _, kw := range []string{"a:b", "m:ext", "a-1:b.2", "_a:_b", "A:B"} {
+		out = append(out, c09Section{head + "  leaf l { type string; " + kw + " \"x\"; }\n}\n", "accept", "keyword prefixed-extension " + kw})
+	}
 	return out
 }
 
@@ -642,7 +655,11 @@ func (p *c09) Run(tier string, seed int64, idx int) core.CaseResult {
 	if idx < len(c09SectionList) {
 		s := c09SectionList[idx]
 		res.Ev("section_orders", 1)
-		c09Check(s.text, s.expect, "order/"+strings.Fields(s.desc)[0]+"/"+strings.Join(strings.Fields(s.desc)[1:3], "-"), "", &res)
+		cls := "order/" + strings.Fields(s.desc)[0] + "/" + strings.Join(strings.Fields(s.desc)[1:3], "-")
+		if strings.HasPrefix(s.desc, "keyword ") {
+			cls = strings.Join(strings.Fields(s.desc)[:3], "/")
+		}
+		c09Check(s.text, s.expect, cls, "", &res)
 		if idx%97 == 0 {
 			res.Sample = map[string]interface{}{"order_case": s.desc, "expect": s.expect}
 		}
